@@ -280,6 +280,58 @@ def bound_probes(ctx, cfgs):
     return n, fails
 
 
+_T = "0x0000000000000000000000000000000000000123"
+_RC = "convert(raw_call(" + _T + ", b\"\", max_outsize=32{kw}), uint256)"
+# (name, source, expected) -- expected: "accept" | "reject" (user-facing error under BOTH pipelines)
+FIXED_CASES = [
+    ("raw_call_static_true_in_view", "@external\n@view\ndef f(a: uint256) -> uint256:\n    return " + _RC.format(kw=", is_static_call=True") + "\n", "accept"),
+    ("raw_call_static_const_in_view", "S: constant(bool) = True\n@external\n@view\ndef f(a: uint256) -> uint256:\n    return " + _RC.format(kw=", is_static_call=S") + "\n", "accept"),
+    ("raw_call_static_folded_expr_in_view", "@external\n@view\ndef f(a: uint256) -> uint256:\n    return " + _RC.format(kw=", is_static_call=(1 == 1)") + "\n", "accept"),
+    ("raw_call_static_false_in_view", "@external\n@view\ndef f(a: uint256) -> uint256:\n    return " + _RC.format(kw=", is_static_call=False") + "\n", "reject"),
+    ("raw_call_static_constfalse_in_view", "S: constant(bool) = False\n@external\n@view\ndef f(a: uint256) -> uint256:\n    return " + _RC.format(kw=", is_static_call=S") + "\n", "reject"),
+    ("raw_call_default_in_view", "@external\n@view\ndef f(a: uint256) -> uint256:\n    return " + _RC.format(kw="") + "\n", "reject"),
+    ("raw_call_static_variable", "@external\n@view\ndef f(a: uint256) -> uint256:\n    b: bool = True\n    return " + _RC.format(kw=", is_static_call=b") + "\n", "reject"),
+    ("raw_call_static_with_value", "@external\n@view\ndef f(a: uint256) -> uint256:\n    return " + _RC.format(kw=", is_static_call=True, value=a") + "\n", "reject"),
+    ("raw_call_static_in_pure", "@external\n@pure\ndef f(a: uint256) -> uint256:\n    return " + _RC.format(kw=", is_static_call=True") + "\n", "reject"),
+    ("default_msgvalue_nonpayable_external", "@external\ndef f(a: uint256 = msg.value) -> uint256:\n    return a\n", "reject"),
+    ("default_msgvalue_view_external", "@external\n@view\ndef f(a: uint256 = msg.value) -> uint256:\n    return a\n", "reject"),
+    ("default_msgvalue_payable_external", "@external\n@payable\ndef f(a: uint256 = msg.value) -> uint256:\n    return a\n", "accept"),
+    ("default_msgvalue_nonpayable_internal", "@internal\ndef g(a: uint256 = msg.value) -> uint256:\n    return a\n@external\n@payable\ndef f() -> uint256:\n    return self.g()\n", "reject"),
+    ("default_msgvalue_payable_internal_from_payable", "@internal\n@payable\ndef g(a: uint256 = msg.value) -> uint256:\n    return a\n@external\n@payable\ndef f() -> uint256:\n    return self.g()\n", "accept"),
+    # the default is evaluated in the nonpayable caller: either verdict is defensible, a panic or a pipeline disagreement is not
+    ("default_msgvalue_payable_internal_from_nonpayable", "@internal\n@payable\ndef g(a: uint256 = msg.value) -> uint256:\n    return a\n@external\ndef f() -> uint256:\n    return self.g()\n", "either"),
+    ("default_env_in_pure", "@external\n@pure\ndef f(a: uint256 = block.number) -> uint256:\n    return a\n", "reject"),
+    ("default_state_in_pure", "s: uint256\n@external\n@pure\ndef f(a: uint256 = self.s) -> uint256:\n    return a\n", "reject"),
+    ("default_blocknumber_view_internal", "@internal\n@view\ndef g(a: uint256 = block.number) -> uint256:\n    return a\n@external\n@view\ndef f() -> uint256:\n    return self.g()\n", "accept"),
+]
+
+
+def fixed_cases(ctx, cfgs):
+    """hand-written programs for rule variants outside the calculus (raw_call flags, default arguments)"""
+    from vyper.exceptions import VyperException
+    n = fails = 0
+    for name, src, want in FIXED_CASES:
+        verdicts = {}
+        for cfg in cfgs:
+            c = compile_full(src, cfg)
+            n += 1
+            verdicts[cfg.name] = "accept" if not isinstance(c, Exception) else ("reject:" + type(c).__name__ if isinstance(c, VyperException) else "PANIC:" + type(c).__name__)
+        kinds = {v.split(":")[0] for v in verdicts.values()}
+        bad = None
+        if "PANIC" in kinds:
+            bad = "the compiler panics (internal error) instead of compiling or giving a user-facing diagnostic"
+        elif len(kinds) > 1:
+            bad = "pipelines disagree on acceptance"
+        elif want != "either" and kinds != {want}:
+            bad = f"expected {want}"
+        if bad:
+            fails += 1
+            key = "c11:default-arg-msgvalue:legacy-panics-venom-accepts" if name == "default_msgvalue_payable_internal_from_nonpayable" else f"c11:fixed:{name}"
+            ctx.violation("failing-input", f"{name}: {bad}", {"source": src, "verdicts": verdicts, "expected": want,
+                          "how": "vyper.compiler.compile_code(source, output_formats=['bytecode'], settings=<config>)"}, key=key)
+    return n, fails
+
+
 def run(ctx):
     rnd = ctx.rng("gen")
     gen = G.Gen(rnd)
@@ -358,6 +410,8 @@ def run(ctx):
             late = [x for x in late if x[1] != "StaticAssertionException"]
             if late:
                 stats["rejected_in_codegen"] = stats.get("rejected_in_codegen", 0) + 1
+                ctx.corr.setdefault("rejected_only_in_codegen_by_rule", {})
+                ctx.corr["rejected_only_in_codegen_by_rule"][rule + ":" + late[0][1]] = ctx.corr["rejected_only_in_codegen_by_rule"].get(rule + ":" + late[0][1], 0) + 1
                 if len(late) != len(accepting_cfgs):
                     if rule in CODEGEN_CHECKED:
                         nfail += 1
@@ -407,6 +461,10 @@ def run(ctx):
     ctx.corr["dynamic_calls"] = ncalls
     ctx.corr["evaluations"] = len(cases) + ncalls
     ctx.corr["distinct_nontrivial"] = len({G.c_prog(c[2]) for c in cases})
+    nx, fx = fixed_cases(ctx, dyn_cfgs)
+    ctx.corr["fixed_case_compiles"] = nx
+    ctx.corr["evaluations"] += nx
+    nfail += fx
     nb, fb = bound_probes(ctx, dyn_cfgs if ctx.tier == "quick" else configs_all(ctx))
     ctx.corr["bound_probe_calls"] = nb
     ctx.corr["evaluations"] += nb
